@@ -617,6 +617,25 @@ impl Property for C07 {
             events.push(Ev::In(Inbound::Publish { qos: 0, dup: false, retain: false, pid: 0, target: Target::Two(at(n - 1), at(0)), payload_len: 1, props: 0 }));
             v.push(Scenario { receive_max: None, max_packet_size: None, id_offset: 0, prologue: 0, events });
         }
+        // one message for MANY subscriptions at once (overlapping filters): 8, 9, 10, 12, 20, 40
+        // subscriptions with streams, a PUBLISH naming all of them in registration order, one naming
+        // them in reverse, then one for the last subscription alone
+        for (k, n) in [8usize, 9, 10, 12, 20, 40].into_iter().enumerate() {
+            if k % workers != worker % workers.max(1) {
+                continue;
+            }
+            let ok = Deco::default();
+            let mut events = vec![];
+            for _ in 0..n {
+                events.push(Ev::Start { h: 0, kind: OpKind::Sub(0), settle: false, solo: false });
+                events.push(Ev::In(Inbound::Ack { sel: 65535, deco: ok }));
+                events.push(Ev::MakeStream { sel: 65535 });
+            }
+            for (q, t) in [(0u8, Target::All), (1, Target::AllReversed), (2, Target::All), (1, Target::Sub(65535))] {
+                events.push(Ev::In(Inbound::Publish { qos: q, dup: false, retain: false, pid: 0, target: t, payload_len: 2, props: 0 }));
+            }
+            v.push(Scenario { receive_max: None, max_packet_size: None, id_offset: 0, prologue: 0, events });
+        }
         // a consumer that lags: backlogs around every power of two up to 4096 (8192 in the
         // thorough tier) build up while the stream is not polled - before and after stream() is
         // called - next to a second subscription that keeps up
